@@ -315,8 +315,10 @@ func c14Units(tier string, seed int64) []Unit {
 						}
 					}
 					for ctx := range r.ctxIDs {
-						if ctx.Err() == nil && !sc.late { // a Context() call made after the property returned is outside the statement
-							viol("context-not-cancelled", "the context is still live after the invocation ended")
+						// also for workers that outlive the property body (joined by a cleanup): whatever Context() gave
+						// them - the invocation's context, or an already cancelled one once cleanup has begun - is over now
+						if ctx.Err() == nil {
+							viol("context-not-cancelled", "a context handed out during the invocation is still live after the invocation and its cleanups ended")
 						}
 					}
 					for _, ctx := range r.lateCtx {
